@@ -761,6 +761,7 @@ func TestProp(t *testing.T) {
 	shard, shards := run.Shard()
 	enum := append(append(append(g.enumerate(), g.enumSigs()...), g.enumScopes()...), g.enumSpellings()...)
 	enum = append(enum, g.enumStruct()...)
+	enum = append(enum, g.enumPointers()...)
 	okAll := true
 	for i, c := range enum {
 		if i%shards != shard {
